@@ -266,12 +266,29 @@ where
     }
 
     let mut pb = client.publisher(topic).with_encoder(codec.clone());
-    if let Some((c, _)) = compression(comp) {
-        pb = pb.with_compression(c);
+    // (the same holds for the stream's own settings: compression before batching, or after)
+    let compression_first = (run / 4) % 2 == 0;
+    if compression_first {
+        if let Some((c, _)) = compression(comp) {
+            pb = pb.with_compression(c);
+        }
     }
     if size > 0 {
         let interval = if elapses { Duration::from_millis(1) } else { Duration::from_secs(3600) };
-        pb = pb.with_batching(BatchConfig::new(size, interval));
+        // the configuration is a record: how it was put together (constructor, presets, setters in either
+        // order) must not matter
+        let cfg = match run % 4 {
+            0 => BatchConfig::new(size, interval),
+            1 => BatchConfig::high_throughput().batch_size(size).interval(interval),
+            2 => BatchConfig::minimal_payload().interval(interval).batch_size(size),
+            _ => BatchConfig::default().batch_size(1).interval(Duration::from_millis(1)).interval(interval).batch_size(size),
+        };
+        pb = pb.with_batching(cfg);
+    }
+    if !compression_first {
+        if let Some((c, _)) = compression(comp) {
+            pb = pb.with_compression(c);
+        }
     }
     let mut publisher = Some(pb.open().await?);
     let mut sent: Vec<Item> = vec![];
@@ -382,6 +399,19 @@ where
                             let _ = gate.send(false);
                             p.feed(item).await
                         }
+                    }
+                } else if elapses && size > 0 && i % 2 == 0 {
+                    // feed() by hand, with the caller taking its time between being told "ready" and handing
+                    // the item over (longer than the batching interval): the Sink contract allows that, and the
+                    // item still belongs behind everything accepted before it
+                    use futures::Sink as _;
+                    let mut pp = std::pin::Pin::new(&mut *p);
+                    match futures::future::poll_fn(|cx| pp.as_mut().poll_ready(cx)).await {
+                        Ok(()) => {
+                            tokio::time::sleep(Duration::from_millis(3)).await;
+                            pp.as_mut().start_send(item)
+                        }
+                        Err(e) => Err(e),
                     }
                 } else {
                     p.feed(item).await
